@@ -155,6 +155,8 @@ class Tr:
                 return "(%s, %s)" % (a, b), "Q"
             if isinstance(n.op, ast.Div) and ta == "MZ" and tb == "Z":
                 return "(%s, %s)" % (a, b), "MQ"        # element-wise float quotient, kept as (numerators, common denominator)
+            if isinstance(n.op, ast.Pow) and ta == tb == "Z":
+                return "(Z.pow %s %s)" % (a, b), "Z"
             if isinstance(n.op, ast.Mod) and ta == tb == "Z":
                 return "(%s mod %s)" % (a, b), "Z"       # Python's % and Coq's mod agree for a positive modulus (floor)
             if isinstance(n.op, (ast.Add, ast.Sub, ast.Mult)) and ta == tb == "Z":
@@ -296,6 +298,10 @@ class Tr:
             sub = self.fork({x.arg: t for x, t in zip(a.args, want)})
             body, tb = sub.expr(n.body)
             return "(fun %s => %s)" % (" ".join("(%s : %s)" % (x.arg, COQ_TY[t]) for x, t in zip(a.args, want)), body), ("fn", list(want), tb)
+        if isinstance(n, ast.Dict) and all(isinstance(k, ast.Constant) and isinstance(k.value, str) for k in n.keys):
+            for v_ in n.values:
+                self.expr(v_)          # extras are not part of the modelled timestep: the values must still be translatable
+            return "tt", "Ext"
         if isinstance(n, ast.Tuple):
             vs = [self.expr(e) for e in n.elts]
             return "(" + ", ".join(v for v, _ in vs) + ")", ("tuple", [t for _, t in vs])
@@ -401,6 +407,8 @@ class Tr:
                 pp, tp = self.expr(idx.args[0])
                 if tp == "Pos":
                     return "(gset %s (fst %s) (snd %s) %s)" % (arr, pp, pp, val), "MB"
+            if ta == "MZ" and tv == "Z" and isinstance(idx, ast.Name) and self.env.get(idx.id) == ("tuple", ["Z", "Z"]):
+                return "(gset %s (fst %s) (snd %s) %s)" % (arr, idx.id, idx.id, val), "MZ"      # g.at[(r, c)].set(v) with the pair in a variable
             if ta == "MZ" and tv == "Z" and isinstance(idx, ast.Call) and u(idx.func) == "tuple" and len(idx.args) == 1:
                 pp, tp = self.expr(idx.args[0])
                 if tp == "Pos":
@@ -488,6 +496,42 @@ class Tr:
             v, t = self.expr(n.args[0])
             if t == "Z":
                 return v, "Z"        # a float reward constant carried as an opaque integer code (the code is only ever SELECTED)
+        if f == "jnp.max" and len(n.args) == 1 and not kws:
+            v, t = self.expr(n.args[0])
+            if t == "MZ":
+                return "(m_max %s)" % v, "Z"
+        if f == "jnp.ravel" and len(n.args) == 1 and not kws:
+            v, t = self.expr(n.args[0])
+            if t == "MB":
+                return "(concat %s)" % v, "VB"
+        if f == "jnp.divmod" and len(n.args) == 2 and not kws:
+            (a, ta), (b, tb) = self.expr(n.args[0]), self.expr(n.args[1])
+            if ta == tb == "Z":
+                return "(%s / %s, %s mod %s)" % (a, b, a, b), ("tuple", ["Z", "Z"])     # floor division / modulo (positive divisor)
+        if f == "jnp.zeros" and len(n.args) == 1 and isinstance(n.args[0], ast.Tuple) and len(n.args[0].elts) == 2 \
+                and [(k, u(x)) for k, x in kws.items()] == [("dtype", "jnp.int32")]:
+            (r_, tr_), (c_, tc_) = self.expr(n.args[0].elts[0]), self.expr(n.args[0].elts[1])
+            if tr_ == tc_ == "Z":
+                return "(repeat (repeat 0 (Z.to_nat %s)) (Z.to_nat %s))" % (c_, r_), "MZ"
+        if f == "jax.random.choice" and S.get("choice_oracles"):
+            # the PRNG is an oracle; each call site must be one of the pinned shapes and becomes the named oracle APPLIED TO ITS ARGUMENT
+            for pat, (coq, argname, rt) in S["choice_oracles"].items():
+                if u(n).replace(" ", "") == pat.replace(" ", "").replace("<ARG>", u(kws["p"]).replace(" ", "") if "p" in kws else ""):
+                    if argname is None:
+                        return coq, rt
+                    v, t = self.expr(kws["p"])
+                    if t != argname:
+                        raise Unsupported("choice oracle argument type %s" % (t,))
+                    return "(%s %s)" % (coq, v), rt
+            raise Unsupported("jax.random.choice call outside the pinned shapes: " + u(n))
+        if f.startswith("jax.vmap(") and isinstance(n.func, ast.Call) and len(n.func.args) == 2 and not n.func.keywords and u(n.func.args[1]) == "(None, 0)" \
+                and len(n.args) == 2 and not kws and isinstance(n.args[1], ast.Call) and u(n.args[1].func) == "jnp.arange" and len(n.args[1].args) == 1:
+            g, tg = self.expr(n.func.args[0])
+            x, tx = self.expr(n.args[0])
+            k_, tk = self.expr(n.args[1].args[0])
+            if tg[0] == "fn" and list(tg[1]) == [tx, "Z"] and tk == "Z" and tg[2] == "B":
+                return "(map (%s %s) (zrange %s))" % (g, x, k_), "VB"
+            raise Unsupported("vmap(f, (None, 0))(x, arange(k)) types")
         if f == "jnp.zeros_like" and len(n.args) == 1 and not kws:
             v, t = self.expr(n.args[0])
             if t == "MB":
